@@ -152,7 +152,8 @@ func ledgerScenario(c *Ctx, p ledgerParams) {
 			if err != nil {
 				bal = spice.Melange{}
 			}
-			t := w.NewTrx(iss, rec.Address(), overdraftFor(c, bal), nil)
+			// an overdraft is an overdraft whether or not the transfer also carries data
+			t := w.NewTrx(iss, rec.Address(), overdraftFor(c, bal), pick(c, [][]byte{nil, nil, []byte("paid contract")}))
 			trxs = append(trxs, t)
 			if v, err := w.Propose(n, &t); err == nil {
 				sealed = append(sealed, v)
@@ -190,7 +191,15 @@ func ledgerScenario(c *Ctx, p ledgerParams) {
 				}
 			}
 		case r < 57: // issued by the sealing node's own wallet
-			t := w.NewTrx(n.w, pick(c, w.wallets).Address(), spice.Melange{Currency: 1}, nil)
+			// a spice transfer, a data-only contract, or both: the sealing node's own wallet issues nothing it seals
+			kind := c.Rnd.Intn(3)
+			amt, data := spice.Melange{Currency: 1}, []byte(nil)
+			if kind == 1 {
+				amt, data = spice.Melange{}, []byte("own contract")
+			} else if kind == 2 {
+				data = []byte("own paid contract")
+			}
+			t := w.NewTrx(n.w, pick(c, w.wallets).Address(), amt, data)
 			w.Propose(n, &t)
 		case r < 59: // issued by the genesis wallet
 			t := w.NewTrx(n0.w, pick(c, w.wallets).Address(), spice.Melange{Currency: 1}, nil)
